@@ -797,6 +797,66 @@ func runC07(r *engine.Run) {
 
 	registryChangeGaps(r)
 
+	// ---- a received frame whose FOpts are edited and which is then sent on (a MAC command answered and
+	// dropped, one added), and a header that takes its FCtrl by assignment from a received frame: FOptsLen is
+	// the length of the commands the frame carries now, whatever the value held before
+	r.PartDims("fopts/re-encode-after-edit", []string{"FOpts bytes decoded:0..15", "FOpts bytes set afterwards:0..15", "direction:2", "how{edit the decoded frame, FCtrl copied into a new header}"}, 16*16*2*2, func(c *engine.Case) {
+		a, b := int(c.Index%16), int(c.Index/16%16)
+		uplink := c.Index/256%2 == 0
+		copied := c.Index/512 == 1
+		c.Eval()
+		cid, mhdr := lorawan.DevStatusReq, byte(0x60)
+		if uplink {
+			cid, mhdr = lorawan.LinkCheckReq, 0x40
+		}
+		wire := []byte{mhdr, 4, 3, 2, 1, byte(a), 7, 0}
+		for i := 0; i < a; i++ {
+			wire = append(wire, byte(cid))
+		}
+		wire = append(wire, 9, 0xAA, 0xBB, 1, 2, 3, 4)
+		var rx lorawan.PHYPayload
+		if err := rx.UnmarshalBinary(wire); err != nil {
+			c.Fail("fopts/re-encode-after-edit/decode", fmt.Sprintf("%x: %v", wire, err), nil)
+			return
+		}
+		var cmds []lorawan.Payload
+		for i := 0; i < b; i++ {
+			cmds = append(cmds, &lorawan.MACCommand{CID: cid})
+		}
+		tx := rx
+		rmp := rx.MACPayload.(*lorawan.MACPayload)
+		if copied {
+			port := uint8(9)
+			mp := &lorawan.MACPayload{FHDR: lorawan.FHDR{DevAddr: rmp.FHDR.DevAddr, FCtrl: rmp.FHDR.FCtrl, FCnt: rmp.FHDR.FCnt, FOpts: cmds}, FPort: &port,
+				FRMPayload: []lorawan.Payload{&lorawan.DataPayload{Bytes: []byte{0xAA, 0xBB}}}}
+			tx = lorawan.PHYPayload{MHDR: rx.MHDR, MACPayload: mp, MIC: rx.MIC}
+		} else {
+			rmp.FHDR.FOpts = cmds
+		}
+		out, err := tx.MarshalBinary()
+		if err != nil {
+			c.Fail("fopts/re-encode-after-edit/encode", fmt.Sprintf("frame decoded with %d FOpts bytes, FOpts set to %d commands: %v", a, b, err), nil)
+			return
+		}
+		c.NonTrivial()
+		var back lorawan.PHYPayload
+		err = back.UnmarshalBinary(out)
+		if err == nil {
+			err = back.DecodeFOptsToMACCommands()
+		}
+		bmp, _ := back.MACPayload.(*lorawan.MACPayload)
+		if err != nil || bmp == nil || len(out) < 6 || int(out[5]&0x0F) != b || deepPrint(bmp.FHDR.FOpts) != deepPrint(cmds) && !(b == 0 && len(bmp.FHDR.FOpts) == 0) || bmp.FPort == nil || *bmp.FPort != 9 {
+			c.Fail("fopts/re-encode-after-edit", fmt.Sprintf("a frame decoded with %d FOpts bytes (FCtrl copied into a new header: %v) and sent on with %d one-byte commands encodes to %x: FOptsLen nibble %d, decodes (err %v) to FOpts %s", a, copied, b, out, out[5]&0x0F, err, func() string {
+				if bmp == nil {
+					return "-"
+				}
+				return deepPrint(bmp.FHDR.FOpts)
+			}()), nil)
+			return
+		}
+		c.Outcome("fopts/re-encode-after-edit/ok")
+	})
+
 	// ---- registry histories (E2)
 	type regOp struct {
 		uplink bool
